@@ -49,6 +49,10 @@ var slots = []struct{ name, tmpl string }{
 	{"style element class attribute", "package p\n\ntempl T(x string) {\n\t<style data-p=\"%P\" class={ %E }>a{}</style>\n}\n"},
 	{"void element attributes", "package p\n\ntempl T(x string) {\n\t<input data-p=\"%P\" class={ %E } value={ %E }/>\n\t<br class={ %E }/>\n}\n"},
 	{"class attribute inside conditional attribute", "package p\n\ntempl T(x string) {\n\t<div data-p=\"%P\" if true {\n\t\tclass={ %E }\n\t} else {\n\t\tclass={ %E }\n\t}></div>\n}\n"},
+	// the generator writes `case x:` / `default:` without a line break: the first child's expression follows on the same generated line
+	{"case followed directly by if / for", "package p\n\ntempl T(x string) {\n\tswitch x {\n\t\tcase %E:\n\t\t\tif %E != \"\" {\n\t\t\t\t<b>y</b>\n\t\t\t}\n\t\tcase \"é€\" + %E:\n\t\t\tfor _, v := range []string{%E} {\n\t\t\t\t<i>{ v }</i>\n\t\t\t}\n\t\tdefault:\n\t\t\tswitch %E {\n\t\t\t\tcase \"😀\":\n\t\t\t\t\tif x == %E {\n\t\t\t\t\t\t<u>z</u>\n\t\t\t\t\t}\n\t\t\t}\n\t}\n}\n"},
+	{"case followed directly by call / raw go / class element", "package p\n\ntempl c(s string) {\n\t<i>{ s }</i>\n}\n\ntempl T(x string) {\n\tswitch x {\n\t\tcase %E:\n\t\t\t@c(%E)\n\t\tcase \"é\":\n\t\t\t{{ v := %E }}\n\t\t\t<b>{ v }</b>\n\t\tdefault:\n\t\t\t<div class={ %E }>{ %E }</div>\n\t}\n}\n"},
+	{"script and css templates with non-ASCII names", "package p\n\nscript fête(nom string, b int) {\n\tconsole.log(nom, b);\n}\n\ncss größe(x string) {\n\twidth: { %E };\n}\n\ntempl Ünï(x string) {\n\t<button class={ größe(x) } onclick={ fête(%E, 1) }>b</button>\n}\n"},
 	{"css value", "package p\n\ncss c(x string) {\n\tcolor: { %E };\n\tmargin: 1px;\n}\n"},
 	{"script template", "package p\n\nscript s(a string, b int) {\n\tconsole.log(a, b);\n}\n\ntempl T(x string) {\n\t<button onclick={ s(%E, 1) }>b</button>\n}\n"},
 	{"signature", "package p\n\ntempl T(x string, other map[string][]int) {\n\t<b>%P{ %E }</b>\n}\n\ntempl (r recv) M(x string) {\n\t<i>{ x }</i>\n}\n"},
